@@ -84,6 +84,34 @@ def cls_str(classes, lab=None):
     return ";".join(",".join(f(u) for u in c) for c in classes) if classes else "-"
 
 
+def rot0(cyc):
+    """cyclic classes are a cyclic sequence: start it at the class of node 0 (what the model prints)"""
+    if not isinstance(cyc, list):
+        return cyc
+    for k, c in enumerate(cyc):
+        if 0 in [int(u) for u in c]:
+            return cyc[k:] + cyc[:k]
+    return cyc
+
+
+def labelled_str(idx, labd, sort, rotate=False):
+    """canonical string of a labelled class list as the code returned it: classes ordered like the canonical
+    index lists (by least member, or rotated to the class of node 0), members by index"""
+    if not isinstance(idx, list) or not isinstance(labd, list):
+        return labd if not isinstance(labd, list) else "LABELLED-WITHOUT-INDICES"
+    if len(idx) != len(labd) or any(len(c) != len(cl) for c, cl in zip(idx, labd)):
+        return "LABELLED-SHAPE-MISMATCH"
+    cls = [sorted(zip([int(u) for u in c], [int(x) for x in cl])) for c, cl in zip(idx, labd)]
+    if sort:
+        cls.sort(key=lambda c: [u for u, _ in c])
+    elif rotate:
+        for k, c in enumerate(cls):
+            if 0 in [u for u, _ in c]:
+                cls = cls[k:] + cls[:k]
+                break
+    return ";".join(",".join(str(x) for _, x in c) for c in cls) if cls else "-"
+
+
 def adj_str(rows):
     return ";".join(",".join(str(v) for v in r) if r else "-" for r in rows)
 
@@ -174,18 +202,92 @@ def run(ctx):
     def tolists(x):
         return [[int(u) for u in c] for c in x] if isinstance(x, list) else x
 
-    def one(A, kind, form, labels):
+    def dg_report(g, with_labels):
+        rep = {
+            "sc": bool(g.is_strongly_connected),
+            "nscc": int(g.num_strongly_connected_components),
+            "nsink": int(g.num_sink_strongly_connected_components),
+            "scc": tolists(g.strongly_connected_components_indices),
+            "sink": tolists(g.sink_strongly_connected_components_indices),
+            "period": attempt(lambda: int(g.period)),
+            "aper": attempt(lambda: bool(g.is_aperiodic)),
+            "cyc": tolists(attempt(lambda: g.cyclic_components_indices)),
+        }
+        if with_labels:
+            rep["scc_lab"] = tolists(g.strongly_connected_components)
+            rep["sink_lab"] = tolists(g.sink_strongly_connected_components)
+            rep["cyc_lab"] = tolists(attempt(lambda: g.cyclic_components))
+        return rep
+
+    def class_strings(rep, labels):
+        """(scc, sink, cyc) strings; with labels they are built from the code's *labelled* lists"""
+        if labels is None:
+            def show(x, sort=True):
+                if not isinstance(x, list):
+                    return x
+                return cls_str(canon(x) if sort else x, None)
+            return show(rep["scc"]), show(rep["sink"]), show(rot0(rep["cyc"]), sort=False)
+        return (labelled_str(rep["scc"], rep["scc_lab"], True), labelled_str(rep["sink"], rep["sink_lab"], True),
+                labelled_str(rep["cyc"], rep["cyc_lab"], False, rotate=True))
+
+    def dg_string(rep, labels):
+        aper = rep["aper"]
+        a, b, c = class_strings(rep, labels)
+        return "sc=%d nscc=%d nsink=%d scc=%s sink=%s period=%s aper=%s cyc=%s" % (
+            rep["sc"], rep["nscc"], rep["nsink"], a, b, rep["period"],
+            int(aper) if isinstance(aper, bool) else aper, c)
+
+    def sub_case(g, A, rows, labels, nodes=None):
+        """DiGraph.subgraph(nodes) on a random node list (any order, no repetition)"""
+        n = len(A)
+        if nodes is None:
+            nodes = rng.sample(range(n), rng.randint(1, n))
+            if rng.random() < 0.5:
+                nodes.sort()
+        h = g.subgraph(np.array(nodes))
+        k = len(nodes)
+        Asub = [[int(A[u][v]) for v in nodes] for u in nodes]
+        got = (h.csgraph.toarray() != 0).astype(int).tolist()
+        sublabels = None if labels is None else [labels[u] for u in nodes]
+        replay = {"op": "sub", "n": n, "adj": [list(map(int, r)) for r in A], "nodes": nodes, "labels": labels}
+        if h.n != k or got != Asub:
+            ctx.spec_fail("sub:pattern", "subgraph(%s) has pattern %s, expected %s" % (nodes, got, Asub), replay)
+        hl = None if h.node_labels is None else [int(x) for x in h.node_labels]
+        if hl != sublabels:
+            ctx.spec_fail("sub:labels", "subgraph(%s) has labels %s, expected %s" % (nodes, hl, sublabels), replay)
+        rep = dg_report(h, sublabels is not None)
+        rep["labels"] = sublabels
+        replay["reported"] = dict(rep)
+        spec("dg", "sub:", Asub, rep, replay)
+        srows = [[j for j in range(k) if got[i][j]] for i in range(k)]
+        line = "C03 sub n=%d adj=%s nodes=%s" % (n, adj_str(rows), ",".join(map(str, nodes)))
+        if labels is not None:
+            line += " labels=" + ",".join(str(x) for x in labels)
+        cases.append(Case(line, "n=%d adj=%s %s" % (h.n, adj_str(srows), dg_string(rep, sublabels)),
+                          nontrivial=(k >= 2 and any(Asub[i][j] for i in range(k) for j in range(k) if i != j)), tag="sub"))
+        ctx.count("sub:" + ("sorted-nodes" if nodes == sorted(nodes) else "permuted-nodes"))
+
+    def one(A, kind, form, labels, raw=None):
         """build the real object, report, spec-check, and queue the correspondence case"""
         n = len(A)
         rows = [[j for j in range(n) if A[i][j]] for i in range(n)]
         Ad = np.array(A, dtype=int).reshape(n, n)
+        stored_rows = nz_rows = None      # set when the input has explicitly stored zeros
         if form == "csr-shuffled":
             rows = [rng.sample(r, len(r)) for r in rows]
         if kind == "mc":
             # unequal probabilities inside a row, so that a permuted row is a different chain
             W = [[(rng.randint(1, 4) if A[i][j] else 0) for j in range(n)] for i in range(n)]
             P = np.array([[W[i][j] / sum(W[i]) for j in range(n)] for i in range(n)])
-        if form == "dense":
+        if raw is not None:        # corpus entry: CSR arrays exactly as recorded
+            data, indices, indptr = (np.array(raw[0]), np.array(raw[1], dtype=np.int32), np.array(raw[2], dtype=np.int32))
+            rows = [[int(indices[t]) for t in range(indptr[i], indptr[i + 1]) if data[t] != 0] for i in range(n)]
+            if any(d == 0 for d in data):
+                stored_rows = [[int(indices[t]) for t in range(indptr[i], indptr[i + 1])] for i in range(n)]
+                nz_rows = [[int(data[t] != 0) for t in range(indptr[i], indptr[i + 1])] for i in range(n)]
+            arg = sparse.csr_matrix((data, indices, indptr), shape=(n, n))
+            before = (arg.data.copy(), arg.indices.copy(), arg.indptr.copy())
+        elif form == "dense":
             arg = Ad.astype(bool) if rng.random() < 0.5 else Ad
         elif form == "weighted":
             arg = Ad * np.array([[rng.choice([0.25, 0.5, 1.0, 2.0, 3.5]) for _ in range(n)] for _ in range(n)])
@@ -208,6 +310,8 @@ def run(ctx):
                 rows = [[v for (v, e) in ent if e] for ent in stored]     # what eliminate_zeros leaves, same order
                 if any(not e for ent in stored for (_, e) in ent):
                     ctx.count("stored-zeros:present")
+                    stored_rows = [[v for (v, _) in ent] for ent in stored]
+                    nz_rows = [[int(e) for (_, e) in ent] for ent in stored]
             indptr = np.cumsum([0] + [len(ent) for ent in stored])
             indices = np.array([v for ent in stored for (v, _) in ent], dtype=np.int32)
             if kind == "mc":
@@ -221,23 +325,10 @@ def run(ctx):
             before = (arg.data.copy(), arg.indices.copy(), arg.indptr.copy())
         lab = None if labels is None else np.array(labels)
         if kind == "dg":
-            g = DiGraph(arg, weighted=(form in ("weighted", "wcsr-zeros")), node_labels=lab)
-            rep = {
-                "sc": bool(g.is_strongly_connected),
-                "nscc": int(g.num_strongly_connected_components),
-                "nsink": int(g.num_sink_strongly_connected_components),
-                "scc": tolists(g.strongly_connected_components_indices),
-                "sink": tolists(g.sink_strongly_connected_components_indices),
-                "period": attempt(lambda: int(g.period)),
-                "aper": attempt(lambda: bool(g.is_aperiodic)),
-                "cyc": tolists(attempt(lambda: g.cyclic_components_indices)),
-            }
-            if lab is not None:
-                rep["scc_lab"] = tolists(g.strongly_connected_components)
-                rep["sink_lab"] = tolists(g.sink_strongly_connected_components)
-                rep["cyc_lab"] = tolists(attempt(lambda: g.cyclic_components))
+            g = DiGraph(arg, weighted=(form in ("weighted", "wcsr-zeros", "corpus-weighted")), node_labels=lab)
+            rep = dg_report(g, lab is not None)
         else:
-            mc = MarkovChain(P if form == "dense" else arg, state_values=lab)
+            mc = MarkovChain(P if (form == "dense" and raw is None) else arg, state_values=lab)
             rep = {
                 "sc": bool(mc.is_irreducible),
                 "nscc": int(mc.num_communication_classes),
@@ -280,25 +371,26 @@ def run(ctx):
         spec(kind, kind + ":", A, rep, replay)
 
         # ---- canonical string of the code's answer (what the model prints) ----------------------
-        def show(x, sort=True):
-            if not isinstance(x, list):
-                return x
-            return cls_str(canon(x) if sort else x, labels)
         per = rep["period"]
         aper = rep["aper"]
         if kind == "dg":
-            s = "sc=%d nscc=%d nsink=%d scc=%s sink=%s period=%s aper=%s cyc=%s" % (
-                rep["sc"], rep["nscc"], rep["nsink"], show(rep["scc"]), show(rep["sink"]), per,
-                int(aper) if isinstance(aper, bool) else aper, show(rep["cyc"], sort=False))
+            s = dg_string(rep, labels)
         else:
+            a, b, c = class_strings(rep, labels)
             s = "irr=%d ncomm=%d nrec=%d comm=%s rec=%s period=%s aper=%s cyc=%s" % (
-                rep["sc"], rep["nscc"], rep["nsink"], show(rep["scc"]), show(rep["sink"]), per,
-                int(aper) if isinstance(aper, bool) else aper, show(rep["cyc"], sort=False))
-        line = "C03 %s n=%d adj=%s" % (kind, n, adj_str(rows))
+                rep["sc"], rep["nscc"], rep["nsink"], a, b, per, int(aper) if isinstance(aper, bool) else aper, c)
+        if stored_rows is not None:
+            # the model gets the matrix as stored plus the "value is non-zero" flags and drops the zeros itself
+            line = "C03 %s n=%d adj=%s nz=%s" % (kind, n, adj_str(stored_rows), adj_str(nz_rows))
+            ctx.count("stored-zeros:eliminated-by-model")
+        else:
+            line = "C03 %s n=%d adj=%s" % (kind, n, adj_str(rows))
         if labels is not None:
             line += " labels=" + ",".join(str(x) for x in labels)
         nt = n >= 2 and any(A[i][j] for i in range(n) for j in range(n) if i != j)
         cases.append(Case(line, s, nontrivial=nt, tag=kind))
+        if kind == "dg" and rng.random() < 0.35:
+            sub_case(g, A, rows, labels)
 
         # ---- branch counters -----------------------------------------------------------------------
         ctx.count("form:" + form)
@@ -334,6 +426,42 @@ def run(ctx):
             return None
         return rng.sample(range(-50, 100), n)
 
+    # ---- ./check C03 --replay <file>: only the recorded input -------------------------------------------------
+    r = getattr(ctx, "replay_only", None)
+    if r is not None:
+        form = r.get("form") or "dense"
+        kind = "dg" if r.get("op") in ("dg", "sub") else "mc"
+        raw = None
+        if r.get("csr"):
+            raw = (r["csr"]["data"], r["csr"]["indices"], r["csr"]["indptr"])
+        elif "indptr" in r:
+            raw = (r["data"], r["indices"], r["indptr"])
+        if raw is not None:
+            form = "corpus-weighted" if form in ("wcsr-zeros", "corpus-weighted") else "corpus"
+        one(r["adj"], kind, form, r.get("labels"), raw=raw)
+        if r.get("op") == "sub":
+            A = r["adj"]
+            lab = r.get("labels")
+            sub_case(DiGraph(np.array(A), node_labels=None if lab is None else np.array(lab)), A,
+                     [[j for j in range(len(A)) if A[i][j]] for i in range(len(A))], lab, nodes=r["nodes"])
+        ctx.run_cases(cases)
+        return
+
+    # ---- corpus: recorded inputs (past findings) run first -------------------------------------------------
+    import json, os
+    cpath = os.path.join(ctx.corpus_dir, "c03_cases.json")
+    if os.path.exists(cpath):
+        for ent in json.load(open(cpath)):
+            n = ent["n"]
+            D = [[0.0] * n for _ in range(n)]
+            for i in range(n):
+                for t in range(ent["indptr"][i], ent["indptr"][i + 1]):
+                    D[i][ent["indices"][t]] += ent["data"][t]
+            A = [[1 if D[i][j] != 0 else 0 for j in range(n)] for i in range(n)]
+            form = "corpus-weighted" if ent.get("weighted") else "corpus"
+            one(A, ent["kind"], form, ent.get("labels"), raw=(ent["data"], ent["indices"], ent["indptr"]))
+            ctx.count("corpus-cases")
+
     # ---- exhaustive small scopes -------------------------------------------------------------------
     nmax = ctx.n(3, 4)
     k = 0
@@ -346,6 +474,15 @@ def run(ctx):
                 one(A, "mc", MCFORMS[k % 4], pick_labels(n, k % 7 == 0))
                 ctx.count("exhaustive:mc-patterns-n=%d" % n)
             ctx.count("exhaustive:dg-patterns-n=%d" % n)
+    if nmax < 4:
+        # quick tier: a random sample of the n=4 patterns (the thorough tier enumerates all 65 536)
+        for _ in range(4000):
+            A = [[rng.randint(0, 1) for _ in range(4)] for _ in range(4)]
+            k += 1
+            one(A, "dg", FORMS[k % 6], pick_labels(4, k % 5 == 0))
+            if all(any(r) for r in A):
+                one(A, "mc", MCFORMS[k % 4], pick_labels(4, k % 7 == 0))
+            ctx.count("sampled:n=4-patterns")
     ctx.exhaustive = True
     ctx.extra["exhaustive_scope"] = ("all 0/1 patterns n<=%d as DiGraph (incl. empty rows), all patterns without empty row "
                                      "n<=%d as MarkovChain; random families n<=12 are sampled" % (nmax, nmax))
@@ -401,7 +538,7 @@ def run(ctx):
                 A[t][rng.randrange(sum(sizes), n)] = 1
         return A
 
-    nrand = ctx.n(700, 6000)
+    nrand = ctx.n(4000, 40000)
     for it in range(nrand):
         fam = it % 5
         if fam == 0:      # periodic strongly connected
@@ -434,6 +571,18 @@ def run(ctx):
             for i in range(m):
                 if not any(A[i]):
                     A[i][rng.randrange(m)] = 1
+        elif fam == 4 and ctx.thorough and it % 25 == 4:
+            # beyond the quantifier's n<=12: 13..20 nodes, several periodic blocks with transient feeders
+            specs = []
+            for _ in range(rng.randint(1, 3)):
+                p = rng.choice([1, 2, 3, 4, 5])
+                specs.append((rng.randint(max(p, 2), 6), p))
+            tot = sum(sz for sz, _ in specs)
+            A = blocks(specs, rng.randint(max(0, 13 - tot), 20 - tot))
+            for i in range(len(A)):
+                if not any(A[i]):
+                    A[i][i] = 1
+            ctx.count("family:large-13..20")
         else:             # union of disjoint cycles of given lengths joined by one-way bridges
             lens = [rng.randint(1, 5) for _ in range(rng.randint(1, 3))]
             m = sum(lens)
@@ -460,11 +609,48 @@ def run(ctx):
                      ((lambda: DiGraph(np.ones((2, 2)), node_labels=[1, 2, 3])), ValueError),
                      ((lambda: MarkovChain(np.array([[0.5, 0.4], [0.5, 0.5]]))), ValueError),
                      ((lambda: MarkovChain(np.array([[1.5, -0.5], [0.5, 0.5]]))), ValueError),
-                     ((lambda: MarkovChain(np.ones((2, 3)) / 3)), ValueError)):
+                     ((lambda: MarkovChain(np.ones((2, 3)) / 3)), ValueError),
+                     ((lambda: DiGraph(sparse.csr_matrix(np.ones((2, 3))))), ValueError),
+                     ((lambda: DiGraph(np.ones((2, 2)), node_labels=[1, "a"][:1] + [None])), ValueError),
+                     ((lambda: MarkovChain(np.eye(2), state_values=[1, 2, 3])), ValueError),
+                     ((lambda: MarkovChain(sparse.csr_matrix(np.array([[0.5, 0.6], [1.0, 0.0]])))), ValueError)):
         try:
             bad()
             ctx.spec_fail("constructor", "malformed input accepted", {"op": "malformed"})
         except exc:
             ctx.count("malformed:" + exc.__name__)
 
+    ctx.assumptions += [
+        "SciPy connected_components / breadth_first_order / reconstruct_path are not read: the model's own SCC (frontier "
+        "saturation, proved) and queue BFS (proved complete) are compared with them by output",
+        "edges = non-zero entries; weighted graphs are generated with positive weights only (the property's positive-entry graph)",
+        "the n<=12 random families (and 13..20 in the thorough tier) are sampled, only n<=3 / n<=4 is exhaustive",
+    ]
     ctx.run_cases(cases)
+
+
+# ----------------------------------------------------------------------------------------------
+# ./check C03 --replay <file>: re-run a recorded input on the real code, the oracle and the model
+
+
+def replay(data):
+    """exit 1 if the oracle (or the correspondence) still objects to what the real code does on the recorded input"""
+    from . import common
+    r = data.get("replay", data)
+    if "adj" not in r:
+        print(__import__("json").dumps(data, indent=1)[:4000])
+        return 0
+    common.ensure_driver("C03")
+    ctx = common.Ctx("C03", "quick", 0, FILES)
+    ctx.known = {}
+    ctx.replay_only = r
+    print("replaying %s (%s, n=%s): %s" % (r.get("op"), r.get("form"), r.get("n"), data.get("what", "")))
+    run(ctx)
+    for sf in ctx.spec_failures:
+        print("STILL FAILS [%s]: %s" % (sf["key"], sf["what"]))
+    for mm in ctx.mismatches:
+        print("MODEL DIFFERS: %s\n  code : %s\n  model: %s" % (mm["request"], mm["code"], mm["model"]))
+    if not ctx.spec_failures and not ctx.mismatches:
+        print("now fine: the real code's answers satisfy the oracle and agree with the model")
+        return 0
+    return 1
